@@ -33,8 +33,8 @@ class T:
     def num(self):
         r = self.r
         neg = r.random() < 0.25
-        ip = str(r.choice([0, 1, 2, 3, 5, 10, 12, 100]))
-        fp = str(r.choice([5, 25, 75, 1])) if r.random() < 0.25 else None
+        ip = str(r.choice([0, 1, 2, 3, 5, 10, 12, 100, 65536, 9007199254740993, 9999999999999999, 123456789012345678901234567890]))
+        fp = str(r.choice([5, 25, 75, 1])) if r.random() < 0.25 and len(ip) < 6 else None
         if ip == "0" and fp is None:
             neg = False          # int("-0") is 0: the sign of a zero literal is not observable in the tree
         return ("N", neg, ip, fp)
@@ -322,7 +322,7 @@ def impl(job):
     from csvpath.matching.lark_parser import LarkParser
     with open(fname, "w") as fh:
         fh.write("id,a,b\nr1,1,x\nr2,2,y\nr3,3,\n")
-    out = {"trees": [], "notes": []}
+    out = {"trees": [], "notes": [], "runs": []}
     with Quiet():
         for t, oc in zip(texts, outers):
             try:
@@ -339,6 +339,18 @@ def impl(job):
             except Exception as ex:  # noqa
                 out["trees"].append(None)
                 out["notes"].append(type(ex).__name__ + ": " + str(ex)[:120])
+                continue
+            # the results of a run of this layout (compared across layouts)
+            try:
+                c2 = CsvPath()
+                c2.config.csvpath_errors_policy = ["collect"]
+                c2.parse(f"{oc}${fname}[*]{t}")
+                lines = c2.collect()
+                out["runs"].append({"lines": [list(map(str, l)) for l in lines], "vars": repr(sorted((k, repr(v)) for k, v in c2.variables.items())),
+                                    "counts": [c2.line_monitor.physical_line_number, c2.current_match_count if hasattr(c2, "current_match_count") else c2.match_count, c2.stopped],
+                                    "errors": len(c2.errors or [])})
+            except Exception as ex:  # noqa
+                out["runs"].append({"raised": type(ex).__name__})
     try:
         os.remove(fname)
     except OSError:
@@ -366,9 +378,20 @@ def run(ctx):
     def case(i):
         return {"layouts": [oc + "$f[*]" + t for t, oc in zip(jobs[i][1], jobs[i][2])], "tree_written": jobs[i][0], "impl": res[i]}
     spec_bad, agree_bad = sorted(bad["c17_spec"]), sorted(bad["c17_agree"])
+    # run results of the re-laid-out text: equal across layouts (trees without random())
+    run_bad, runs_compared = [], 0
+    for i, ((comps, texts, outers, _), o) in enumerate(zip(jobs, res)):
+        if "random(" in texts[0] or len(o["runs"]) != len(texts):
+            continue
+        runs_compared += 1
+        if any(r != o["runs"][0] for r in o["runs"][1:]):
+            run_bad.append(i)
     if spec_bad:
         ctx.violation("tree", {"what": "the component tree built for some layout is not the tree that was written (or the text did not parse, or parsed ambiguously)", "case": case(spec_bad[0]),
                                "more": [case(i) for i in spec_bad[1:3]], "failures": len(spec_bad)})
+    elif run_bad:
+        ctx.violation("runs", {"what": "two layouts of the same component tree gave different run results (lines, variables, counters, stop flag, error count)", "case": case(run_bad[0]),
+                               "failures": len(run_bad)})
     elif agree_bad:
         ctx.violation("correspondence", {"what": "correspondence Match/Syntax.v (lexer + parser) vs Lark grammar + LarkTransformer no longer checks (Harness/C17Cmp.c17_agree); theorems C17_* are about the model only",
                                          "disagreeing_case": case(agree_bad[0])}, no_input=True)
@@ -380,7 +403,7 @@ def run(ctx):
                 "assignment actions, nesting depth <= 4; each rendered canonically and in 2 random layouts (spaces, tabs, newlines, zero-width where tokens cannot fuse, '~...~' comments between "
                 "components) with optional outer comments without mode settings. Non-trivial = distinct trees with >= 2 components.",
         "samples": [case(0)],
-        "trees": len(jobs), "layouts": len(jobs) * 3, "parse_failures_or_ambiguous": sum(1 for o in res for t in o["trees"] if t is None),
+        "trees": len(jobs), "layouts": len(jobs) * 3, "runs_compared_across_layouts": runs_compared, "runs_raising": sum(1 for o in res for r in o["runs"] if "raised" in r), "parse_failures_or_ambiguous": sum(1 for o in res for t in o["trees"] if t is None),
         "traces_validated_against_impl": len(jobs) - len(agree_bad),
         "correspondence": f"model parser == real parser on {len(jobs) - len(agree_bad)}/{len(jobs)} trees (x3 layouts); tree == tree written on {len(jobs) - len(spec_bad)}/{len(jobs)}",
     })
